@@ -35,6 +35,7 @@ def parseBasic : List String → Option Op
   | ["N"] => some .N
   | ["F"] => some .F
   | ["Y", _] => some .Y
+  | ["W", _] => some .Y        -- which recording delegate the harness installs (SDK / one type per kind): invisible to the model
   | ["XM"] => some .XM
   | ["XT"] => some .XT
   | ["XP"] => some .XP
